@@ -42,6 +42,9 @@ fn main() {
             "total" => out(&total::run(&args[2..])),
             "lang" => out(&lang::run(&args[2..])),
             "gen" => out(&progen::run(&args[2..])),
+            "det" => {
+                lang::det(&args[2..]);
+            }
             "run" => {
                 let text = if args[2] == "-" { std::io::read_to_string(std::io::stdin()).unwrap() } else { args[2].clone() };
                 out(&probe::run_text(&text, true))
